@@ -55,15 +55,18 @@ type (
 
 const BestCompression = "bestCompression"
 
-var defaultCompressSrvList = NewServices([]CompressOption{
-	{
-		Name: BestCompression,
-		Levels: map[string]int{
-			// -1则会选择默认的压缩级别
-			"br":   -1,
-			"gzip": gzip.BestCompression,
-		},
+// defaultBestCompressionOption the default option of best compression
+var defaultBestCompressionOption = CompressOption{
+	Name: BestCompression,
+	Levels: map[string]int{
+		// -1则会选择默认的压缩级别
+		"br":   -1,
+		"gzip": gzip.BestCompression,
 	},
+}
+
+var defaultCompressSrvList = NewServices([]CompressOption{
+	defaultBestCompressionOption,
 })
 var defaultCompressSrv = NewService()
 var notSupportedEncoding = errors.New("not supported encoding")
@@ -109,7 +112,18 @@ func (cs *compressSrvs) Get(name string) *compressSrv {
 // Reset reset the services
 func (cs *compressSrvs) Reset(opts []CompressOption) {
 	// 此处不删除存在的压缩服务，因为compress实例并不占多少内存
-	// 也避免配置了bestCompression后删除
+	// 如果配置中不再覆盖bestCompression，则恢复其默认配置（与重新启动一致）
+	bestCompressionFound := false
+	for _, opt := range opts {
+		if opt.Name == BestCompression {
+			bestCompressionFound = true
+		}
+	}
+	if !bestCompressionFound {
+		srv := NewService()
+		srv.SetLevels(defaultBestCompressionOption.Levels)
+		cs.m.Store(BestCompression, srv)
+	}
 	for _, opt := range opts {
 		srv := NewService()
 		srv.SetLevels(opt.Levels)
